@@ -97,6 +97,15 @@ def elems (p : Path) : Nat → Res (List (List Byte))
       | .err e => .err e
       | .null => .null | .oob => .oob | .fault => .fault
 
+/-- `n` calls of `mpt_path_next` -/
+def nextN (p : Path) : Nat → Res Path
+  | 0 => .ok p
+  | n + 1 =>
+    match pathNext p with
+    | .ok (q, _) => nextN q n
+    | .err e => .err e
+    | .null => .null | .oob => .oob | .fault => .fault
+
 /-- backward scan of `mpt_path_last`/`mpt_path_del`: from index `idx` while `pos ≠ 0` and the byte is not `sep` -/
 def scanBack (base : List Byte) (sep : Byte) : Nat → Nat → Nat → Res (Nat × Nat)
   | 0, _, len => .ok (0, len)
@@ -172,6 +181,40 @@ def pathAdd (p : Path) (add : Nat) : Res Path :=
           let first := if len ≠ 0 then p.first else (if add > 255 then 0 else add)
           let base := Mem.write base (len + add) [p.assign]
           .ok { p with base := base, first := first, len := len + add + 1 - p.off, keepPost := false }
+
+/-- `mpt_path_addchar` followed by `mpt_path_valid`: one more pending character that is kept -/
+def pushChar (p : Path) (c : Byte) : Path :=
+  let q := (pathAddChar p c).1
+  match pathValid q with
+  | .ok (r, _) => r
+  | _ => q
+
+/-- a whole element: its characters one by one, then `mpt_path_add` -/
+def pushElem (p : Path) (e : List Byte) : Res Path := pathAdd (e.foldl pushChar p) e.length
+
+/-- a path built element by element -/
+def pushElems (p : Path) : List (List Byte) → Res Path
+  | [] => .ok p
+  | e :: es =>
+    match pushElem p e with
+    | .ok q => pushElems q es
+    | x => x
+
+/-- the empty path the builders start from (no storage yet) -/
+def emptyPath (sep assign : Byte) (bin : Bool) : Path := { sep := sep, assign := assign, binary := bin }
+
+/-- the text of a separator-mode path with these elements -/
+def joinSep (sep : Byte) : List (List Byte) → List Byte
+  | [] => []
+  | [e] => e
+  | e :: e' :: es => e ++ sep :: joinSep sep (e' :: es)
+
+/-- binary length mode: every element is followed by its own length and the length of the next element
+    (`x` = what that field says behind the last element: 0 after `mpt_path_add`, stale after `mpt_path_del`) -/
+def encBin (x : Byte) : List (List Byte) → List Byte
+  | [] => []
+  | [e] => e ++ [UInt8.ofNat e.length, x]
+  | e :: e' :: es => e ++ [UInt8.ofNat e.length, UInt8.ofNat e'.length] ++ encBin x (e' :: es)
 
 /-- the loop of `mpt_path_del` (separator mode): `while (--len && *data != sep) { ++part; --data; }` -/
 def delScan (base : List Byte) (sep : Byte) : Nat → Nat → Nat → Res (Nat × Nat)
